@@ -48,7 +48,8 @@ def _ret(fn):
     rets = [s for s in ast.walk(fn) if isinstance(s, ast.Return) and s.value is not None]
     if len(rets) != 1:
         raise AnalysisError("%s: expected a single return" % fn.name)
-    return rets[0].value
+    # locals that merely name a sub-expression are read through (`w = self._op1.weak_form(); return w + ...`)
+    return roles.inline(rets[0].value, roles.Defs(fn))
 
 
 def homomorphism(ctx):
